@@ -255,8 +255,9 @@ class InlineIndex:
         dest = call["dest"]
         target = call["t"]
         ln = call.get("ln", 0)
-        for b in g.blocks:
+        for gbi, b in enumerate(g.blocks):
             nb = self._map_block(b, off, base, (g.qname, g.file))
+            nb["t"].setdefault("ob", gbi)
             if nb["t"]["k"] == "return":
                 nb["s"].append({"k": "assign", "p": dest, "r": {"k": "use", "o": {"m": {"l": off, "t": dest.get("t", 0)}}}, "ln": nb["t"].get("ln", ln)})
                 nb["t"] = {"k": "goto", "t": target, "ln": nb["t"].get("ln", ln)}
@@ -276,8 +277,10 @@ class InlineIndex:
         dest = poll["dest"]
         target = poll["t"]
         ln = poll.get("ln", 0)
-        for b in g.blocks:
+        create["async_spliced"] = True
+        for gbi, b in enumerate(g.blocks):
             nb = self._map_block(b, off, base, (g.qname, g.file))
+            nb["t"].setdefault("ob", gbi)
             if nb["t"]["k"] == "return":
                 nb["s"].append({"k": "assign", "p": dest,
                                 "r": {"k": "agg", "ak": "adt", "def": "std::task::Poll", "variant": "Ready", "vi": 0, "fields": ["0"],
@@ -349,6 +352,10 @@ def apply(F, role_names=()):
                     g = F.by_path.get(r.path)
                     if g in helpers and not g.is_async:
                         used.add(g)   # a sync helper call that was not spliced (e.g. depth limit)
+                    elif g in helpers and g.is_async and not t.get("async_spliced"):
+                        # the future of an async helper is created here but not awaited in this body (passed to
+                        # select!/spawn/join): its code was not spliced anywhere for this site - keep the helper
+                        used.add(g)
     gone = [h for h in helpers if h not in used]
     gone_set = set()
     for h in gone:
